@@ -8,6 +8,7 @@ import (
 	"crypto/rand"
 	"encoding/hex"
 	"fmt"
+	"os"
 	"strconv"
 	"strings"
 	"time"
@@ -336,6 +337,12 @@ func RunC07(c *core.Ctx) {
 			c.Note("env %s: %v", spec.Name, err)
 			continue
 		}
+		if os.Getenv("VERIF_C07_PART") == "more" { // development aid (the check never sets it): to1_more.go alone
+			finish := autoRegistrationProbe(c, spec)
+			noProofProbe(c, spec)
+			finish()
+			continue
+		}
 		emit := func(h []hstep, meta string) { doHist(c, cf, h, meta, nil) }
 		genSystematic("TO1", emit)
 		n := 30
@@ -350,6 +357,8 @@ func RunC07(c *core.Ctx) {
 			expiryProbe(c, spec)
 		}
 		reRegistrationProbe(c, spec)
+		finishAuto := autoRegistrationProbe(c, spec) // to1_more.go
+		noProofProbe(c, spec)
 		for _, alt := range redirectAlterations {
 			p := core.Params{"key": spec.Name, "alt": alt}
 			o := c.Do("dev.redirect", p, "device-side:"+alt)
@@ -367,6 +376,7 @@ func RunC07(c *core.Ctx) {
 				c.Fail("altered-redirect-accepted:"+alt, "the device went on with TO2 (ProveDevice sent: "+fmt.Sprint(sent64)+") although the redirect blob was altered: "+alt, "dev.redirect", p, o)
 			}
 		}
+		finishAuto() // (the 1 s auto-registration has expired by now: no waiting)
 	}
 }
 
@@ -632,6 +642,7 @@ func runC05Protocol(c *core.Ctx) {
 		h = append(h, hstep{Msg: 66, Sess: 0, Tok: 's', From: 1}, hstep{Msg: 66, Sess: 0, Tok: 's', From: -1})
 		run(h, "ciphertext-of-other-session")
 	}
+	runC05KeylessProtocol(c) // tunnel_keys.go: 66/68/70 before any ProveDevice, per key exchange family
 	c.Count("distinct_reply_ivs", fmt.Sprint(len(ivs) > 0))
 }
 
